@@ -55,6 +55,8 @@ impl DebugServer {
                     Ok(_) => (),
                     Err(e) => {
                         log::debug!("Could not start DebugSession: {:?}", e);
+                        // E.g. the port is in use: it may be free again later on
+                        std::thread::sleep(std::time::Duration::from_millis(250));
                     }
                 }
             }
@@ -803,9 +805,11 @@ impl DebugSession {
 
     pub fn start(&mut self, shutdown: &AtomicBool) -> MosResult<()> {
         log::info!("DebugSession listening on port {}...", self.port);
-        let debug_connection =
-            DebugConnection::tcp(&format!("127.0.0.1:{}", self.port), shutdown)
-                .unwrap_or_else(|e| panic!("Couldn't listen on port {}: {}", self.port, e));
+        let debug_connection = DebugConnection::tcp(&format!("127.0.0.1:{}", self.port), shutdown)
+            .map_err(|e| {
+                log::error!("Couldn't listen on port {}: {}", self.port, e);
+                e
+            })?;
         let debug_connection = match debug_connection {
             Some((debug_connection, _)) => debug_connection,
             // The server is shutting down and nobody has connected
